@@ -20,6 +20,21 @@ Theorem C15_meta_never_early : forall (ks : list nat) (d : disk), good d = true 
   meta_current d' = true -> dindex d' = IOpen Shipped \/ dindex d' = IMissing \/ dindex d' = IBroken.
 Proof. exact meta_never_early. Qed.
 
+(* The same with starts that keep their index in memory (Db::in_memory) anywhere in the history: whether such a start may write
+   meta.json is translated from the guard in the source (gen/DbSteps.v, meta_written_when). *)
+Theorem C15_recovers_with_memory_starts : forall (es : list event) (d : disk), good d = true ->
+  let d' := complete (fold_left step_event es d) in
+  answers d' = Shipped /\ meta_current d' = true.
+Proof. exact recovers_events. Qed.
+
+Theorem C15_meta_never_early_with_memory_starts : forall (es : list event) (d : disk), good d = true ->
+  let d' := fold_left step_event es d in
+  meta_current d' = true -> dindex d' = IOpen Shipped \/ dindex d' = IMissing \/ dindex d' = IBroken.
+Proof. exact meta_never_early_events. Qed.
+
+Theorem C15_memory_start_leaves_disk : forall d : disk, mem_start d = d.
+Proof. exact memory_start_leaves_disk. Qed.
+
 Theorem C15_commit_before_meta : before Commit WriteMeta rebuild_steps = true /\ before RemoveMeta RemoveDir open_index_steps = true /\
   before RemoveMeta CreateIndex open_index_steps = true.
 Proof. exact commit_before_meta. Qed.
